@@ -1,6 +1,7 @@
 package chainlab
 
 import (
+	"bytes"
 	"encoding/binary"
 
 	"go.sia.tech/core/types"
@@ -239,12 +240,10 @@ func (b *Builder) V1Form(renter, host *Actor, startDelta, endDelta uint64, withD
 	}
 	fc.WindowEnd = b.freeEnd(fc.WindowStart + endDelta)
 	if withData {
-		leaf := V1Leaf(b.Rng.Uint64())
-		fc.Filesize = 64
-		fc.FileMerkleRoot = v1Root(leaf)
-		// remember the leaf in the (unused) high revision bits is not possible;
-		// the leaf is recomputable from the root table kept by the Env
-		b.Env.rememberLeaf(fc.FileMerkleRoot, leaf)
+		f := b.newFile(false)
+		fc.Filesize = f.Size()
+		fc.FileMerkleRoot = f.Root()
+		b.Env.rememberFile(fc.FileMerkleRoot, f)
 	}
 	// payout = outputs + tax, where tax is computed on the payout
 	tax := b.L.State.FileContractTax(fc)
@@ -348,11 +347,15 @@ func (b *Builder) V1Prove(c v1Cand) bool {
 	}
 	sp := types.StorageProof{ParentID: c.ID}
 	if c.FC.Filesize > 0 {
-		leaf, ok := b.Env.leafFor(c.FC.FileMerkleRoot)
-		if !ok {
+		f, ok := b.Env.fileFor(c.FC.FileMerkleRoot)
+		if !ok || c.FC.WindowStart < 1 || c.FC.WindowStart-1 >= uint64(len(b.L.Chain)) {
 			return false
 		}
-		sp.Leaf = leaf
+		idx := b.L.State.StorageProofLeafIndex(c.FC.Filesize, b.L.Chain[c.FC.WindowStart-1], c.ID)
+		sp.Leaf, sp.Proof = f.Proof(idx)
+		if len(f.Leaves) > 1 {
+			defer func() { b.multiLeaf("v1") }()
+		}
 	}
 	txn := types.Transaction{StorageProofs: []types.StorageProof{sp}}
 	return b.TryV1("v1-proof", txn)
@@ -483,10 +486,11 @@ func (b *Builder) newV2Contract(renter, host *Actor, proofDelta, expDelta uint64
 		HostPublicKey:    host.PK,
 	}
 	if withData {
-		leaf := V2Leaf(b.Rng.Uint64())
-		fc.Filesize = 64
-		fc.FileMerkleRoot = b.L.State.StorageProofLeafHash(leaf[:])
-		b.Env.rememberLeaf(fc.FileMerkleRoot, leaf)
+		f := b.newFile(true)
+		fc.Filesize = f.Size()
+		fc.Capacity = max(fc.Capacity, f.Size())
+		fc.FileMerkleRoot = f.Root()
+		b.Env.rememberFile(fc.FileMerkleRoot, f)
 	}
 	b.signContract(&fc, renter, host)
 	return fc
@@ -600,11 +604,12 @@ func (b *Builder) V2Prove(e types.V2FileContractElement) bool {
 	}
 	sp := types.V2StorageProof{ProofIndex: b.L.CI[fc.ProofHeight].Copy()}
 	if fc.Filesize > 0 {
-		leaf, ok := b.Env.leafFor(fc.FileMerkleRoot)
+		f, ok := b.Env.fileFor(fc.FileMerkleRoot)
 		if !ok {
 			return false
 		}
-		sp.Leaf = leaf
+		idx := b.L.State.StorageProofLeafIndex(fc.Filesize, sp.ProofIndex.ChainIndex.ID, e.ID)
+		sp.Leaf, sp.Proof = f.Proof(idx)
 	} else {
 		return false // empty contracts are resolved by expiration in this generator
 	}
@@ -643,3 +648,73 @@ type V1Cand = v1Cand
 
 // V1ContractsForTest lists the confirmed and in-block v1 contracts.
 func (b *Builder) V1ContractsForTest() []V1Cand { return b.v1Contracts() }
+
+// ---- Foundation address updates ------------------------------------------
+
+// foundationHolder returns the actor that currently controls the Foundation
+// management address, if it is one of ours.
+func (b *Builder) foundationHolder() *Actor {
+	return b.Env.ByAddr[b.L.State.FoundationManagementAddress]
+}
+
+// V1FoundationUpdate moves the Foundation subsidy (and failsafe) address to
+// another actor with a v1 transaction signed by the current holder.
+func (b *Builder) V1FoundationUpdate(to *Actor) bool {
+	holder := b.foundationHolder()
+	if holder == nil || to == nil || to.Addr == types.VoidAddress {
+		return false
+	}
+	in, ok := b.pickInput(holder, 0)
+	if !ok || in.StateElement.LeafIndex == types.UnassignedLeafIndex {
+		return false
+	}
+	fee := b.fee()
+	if in.SiacoinOutput.Value.Cmp(fee.Mul64(4)) < 0 {
+		return false
+	}
+	var buf bytes.Buffer
+	e := types.NewEncoder(&buf)
+	types.FoundationAddressUpdate{NewPrimary: to.Addr, NewFailsafe: to.Addr}.EncodeTo(e)
+	e.Flush()
+	txn := types.Transaction{
+		SiacoinInputs:  []types.SiacoinInput{{ParentID: in.ID, UnlockConditions: holder.UC}},
+		SiacoinOutputs: []types.SiacoinOutput{{Address: holder.Addr, Value: in.SiacoinOutput.Value.Sub(fee)}},
+		MinerFees:      []types.Currency{fee},
+		ArbitraryData:  [][]byte{append(append([]byte(nil), types.SpecifierFoundation[:]...), buf.Bytes()...)},
+	}
+	b.signV1Inputs(&txn)
+	return b.TryV1("v1-foundation-update", txn)
+}
+
+// V2FoundationUpdate does the same with a v2 transaction.
+func (b *Builder) V2FoundationUpdate(to *Actor) bool {
+	holder := b.foundationHolder()
+	if holder == nil || to == nil {
+		return false
+	}
+	var in types.SiacoinElement
+	found := false
+	for _, c := range b.confirmedSC(holder) {
+		in, found = c, true
+		break
+	}
+	if !found {
+		return false
+	}
+	fee := b.fee()
+	if in.SiacoinOutput.Value.Cmp(fee.Mul64(4)) < 0 {
+		return false
+	}
+	addr := to.Addr
+	txn := types.V2Transaction{
+		SiacoinInputs:        []types.V2SiacoinInput{{Parent: in.Copy()}},
+		SiacoinOutputs:       []types.SiacoinOutput{{Address: holder.Addr, Value: in.SiacoinOutput.Value.Sub(fee)}},
+		NewFoundationAddress: &addr,
+		MinerFee:             fee,
+	}
+	b.signV2Inputs(&txn)
+	return b.TryV2("v2-foundation-update", txn)
+}
+
+// multiLeaf is a hook for statistics (kept trivial).
+func (b *Builder) multiLeaf(string) {}
